@@ -21,26 +21,14 @@ and the inverted index' private set cache are covered by the correspondence harn
 import SemaModel.C08.Lemmas
 import SemaModel.C08.ReadOnly
 import SemaModel.C04.Lemmas
-import SemaModel.Generated.FactsC08
 namespace Sema.C08
 open Sema List Sema.C04 Sema.Gen.FactsC04
 
 variable {K V P : Type} [DecidableEq K]
 
-/-! ### the source still has the shape the model transcribes (facts regenerated on every run) -/
-
-/-- itemcache.go: `Put` stores the element dirty; `Delete` marks it; `Flush` deletes-and-forgets
-deleted elements, writes when `IsDirty || CheckAndClearDirty()`, clears `IsDirty`; `ForEach` skips
-deleted elements and sets `isAllInCache` -/
-example : Gen.FactsC08.putSetsIsDirty = true ∧ Gen.FactsC08.deleteMarksIsDeleted = true ∧
-    Gen.FactsC08.flushDeletedCallsDeleteFrom = true ∧ Gen.FactsC08.flushDeletedForgetsItem = true ∧
-    Gen.FactsC08.flushWritesWhenIsDirtyOrCheckAndClearDirty = true ∧ Gen.FactsC08.flushDirtyCallsWriteTo = true ∧
-    Gen.FactsC08.flushClearsIsDirty = true ∧ Gen.FactsC08.forEachSkipsDeleted = true ∧
-    Gen.FactsC08.forEachSetsIsAllInCache = true := by decide
-
-/-- "who sets isDirty": every function of the anchored files that rewrites a cached value in place
-raises its dirty flag (or re-Puts it) — the syntactic side of `C08_mutation_dirty` -/
-example : ∀ m ∈ Gen.FactsC08.inPlaceMutations, m.setsDirty = true := by decide
+/-! ### the source still has the shape the model transcribes (facts regenerated on every run)
+(the pins against `Generated/FactsC08.lean` - itemcache.go flags, in-place mutations, order of the persist steps, bucket-memory
+taint - are in `Pins.lean`, a module of its own built by C08's check only) -/
 
 /-- persisted parameters of the *cached* index objects: what the flush functions put, the
 constructors get.  (`_vamanaMaxNodeId` and `_numDocuments` are extracted too but deliberately not
@@ -438,13 +426,6 @@ theorem C08_params_persist_product (s : Store) (kv : KV) (hk : s.cfg.kind = .pro
 
 /-! ### order of the persist steps: whatever rewrites cached values comes before the flush -/
 
-/-- the write paths of the two vector indexes still end `…; Fit; flush` (call names extracted from
-`vamana.insertUpdateDelete` and `flat.InsertUpdateDelete` in program order on every run): the model's
-transaction is "program, then Flush" (`runBatch`), a rewrite after the flush is outside it -/
-example : phasesOfNames Gen.FactsC08.vamanaWritePhases = [.fit, .flush] ∧
-    phasesOfNames Gen.FactsC08.flatWritePhases = [.fit, .flush] ∧
-    Gen.FactsC08.vamanaWritePhases.getLast? = some "flush" ∧ Gen.FactsC08.flatWritePhases.getLast? = some "flush" := by decide
-
 /-- **C08_fit_then_flush**: training inside the batch, in the order of the source: after `Fit; Flush`
 the cache is coherent with the new bucket and the bucket says what the transaction saw *after* the
 training — the re-encoded points are on disk.  Needs what `C08_mutation_dirty` needs: each rewritten
@@ -594,12 +575,6 @@ theorem C08_train_in_batch_binary (s s' : Store) (kv : KV) (o : FitOracle)
     exact this
 
 /-! ### lifetime of bucket memory: what is cached across transactions must be a copy -/
-
-/-- no `ReadFrom` / constructor of the anchored files lets a byte slice of the storage layer escape
-un-copied (taint extraction on every run: results of `bucket.Get`, key / value parameters of scan
-callbacks, followed into same-file callees; a use is harmless only if it compares, indexes, takes
-the length, copies or decodes) -/
-example : ∀ r ∈ Gen.FactsC08.bucketReads, r.aliased = false := by decide
 
 /-- **C08_read_copies_stable**: if a `ReadFrom` keeps only copies, the projection of the cached
 value does not depend on the bytes after the read: whatever later transactions do to the memory that
